@@ -104,6 +104,7 @@ func TestRaceStage(t *testing.T) {
 	jobs := []job{
 		{"scenarios", "TestRelayScenarios", nil, []string{"-rapid.checks=" + checks, "-rapid.seed=" + seed, "-rapid.shrinktime=1s"}},
 		{"stress", "TestTwoNamesStress", []string{"VERIF_C11_STRESS_MS=1500", "VERIF_C11_STRESS_SESSIONS=8"}, nil},
+		{"fixed", "TestFixedRegressions", nil, nil},
 	}
 	// judge returns whether the known packer finding was hit; any unlisted report fails the test
 	judge := func(name, out string, err error, excluded bool) (packerHit bool) {
@@ -149,7 +150,11 @@ func TestRaceStage(t *testing.T) {
 		}
 		return packerHit
 	}
+	sel := os.Getenv("VERIF_C11_RACE_JOBS") // comma separated job names; empty = all
 	for _, j := range jobs {
+		if sel != "" && !strings.Contains(","+sel+",", ","+j.name+",") {
+			continue
+		}
 		t0 := time.Now()
 		out, err := runChild(t, j.test, j.env, j.args...)
 		t.Logf("child %s: err=%v reports=%d in %v", j.name, err, len(splitRaces(out)), time.Since(t0).Round(time.Millisecond))
